@@ -27,8 +27,9 @@ def gen_history(rng, cfg, nlisteners, polite):
     cap = cfg["worker_connections"]
     for _ in range(n):
         k = rng.random()
-        if k < 0.25 and (not polite or len(connected) < cap - (0 if rng.random() < 0.1 else 0)):
-            if polite and len(connected) >= cap:
+        if k < 0.25:
+            # "polite" histories stay one below worker_connections (where the loop keeps polling); the others may fill it
+            if polite and cap > 1 and len(connected) >= cap - 1:
                 continue
             cid = nclients
             nclients += 1
@@ -70,13 +71,13 @@ def gen_history(rng, cfg, nlisteners, polite):
 
 def make_case(rng):
     threads = rng.randint(1, 3)
-    cfg = {"threads": threads, "worker_connections": rng.randint(1, 5), "keepalive": rng.choice([0, 1, 2])}
+    cfg = {"threads": threads, "worker_connections": rng.choice([1, 2, 3, 3, 4, 4, 5, 5, 6]), "keepalive": rng.choice([0, 1, 2])}
     if rng.random() < 0.35:
         # hold pool threads back at the worker's lock so that the loop runs in between (interleaving exploration)
         cfg["_lock_delay"] = rng.choice([0.3, 0.6, 1.0])
         cfg["_lock_seed"] = rng.randrange(1 << 30)
     nl = rng.choice([1, 1, 2])
-    polite = rng.random() < 0.6
+    polite = rng.random() < 0.75
     return {"cfg": cfg, "listeners": nl, "polite": polite, "history": gen_history(rng, cfg, nl, polite)}
 
 
